@@ -15,6 +15,7 @@ MUTANTS = [
     ('curl term reads the wrong component', [('mininec.Mininec.compute_near_field', "            h [0]  = kf [1][1][2] - kf [0][1][2]\n", "            h [0]  = kf [1][1][0] - kf [0][1][0]\n")], ['curl']),
     ('curl with the displaced points in the other order', [('mininec.Mininec.compute_near_field', "for j8 in (-1, 1)", "for j8 in (1, -1)")], ['curl']),
     ('curl term loses its imaginary part', [('mininec.Mininec.compute_near_field', "                     + (kf [1][2][0].imag - kf [0][2][0].imag) * 1j\n", "                     + (kf [1][2][0].imag - kf [0][2][0].imag)\n")], ['curl']),
+    ('image charges reflected through the origin', [('mininec.Mininec.psi_near_field_56', "        v2 = vec1 - kvec * v2 [pidx]", "        v2 = vec1 - k * v2 [pidx]")], ['image-mirror']),
 ]
 REFACTORS = [
     ('terms reordered', [(M + 'nf_helper', "return (v * d1 [pidx] * v6 + u * d2 [pidx] * v7) * kvec", "return kvec * (v7 * u * d2 [pidx] + v6 * d1 [pidx] * v)")]),
